@@ -42,7 +42,7 @@ def setter_sites(f, name):
 def run(ctx):
     F = ctx.facts()
     rep = ctx.rep
-    rep.not_decided += ['pnet setter/getter byte offsets (library, validated separately in the thorough tier of C04)']
+    rep.not_decided += ['pnet setter/getter byte offsets (library: part of the trusted base)']
     r1 = rep.rule('C03-R1', 'every address / port / protocol field written into a reply has the mirrored provenance of the request', floor=20)
 
     def expect(f, setter, pred, what, count=1, key=None):
